@@ -6,9 +6,11 @@ import (
 	"encoding/json"
 	"flag"
 	"fmt"
+	"go/ast"
 	"go/types"
 	"os"
 	"runtime/debug"
+	"sort"
 	"strconv"
 	"strings"
 	"time"
@@ -29,8 +31,74 @@ func main() {
 	atoms := flag.String("atoms", "", "debug: print the normalised condition atoms and lock keys of function specs (comma separated)")
 	mutators := flag.String("mutators", "", "debug: print the mutation sites of function specs (comma separated) using the mutator summary of their package")
 	bounds := flag.String("bounds", "", "debug: run the K-BOUNDS length dataflow on function specs (comma separated), numberenc/binary readers only")
+	dumpAnchors := flag.Bool("dump-anchors", false, "print, as JSON, the unexported function anchors of all properties with their callers and those callers' unexported callees (input of props/anchors_frozen.go)")
 	siblings := flag.String("siblings", "", "debug: compare the call/guard profiles of a family of sibling functions (comma separated specs)")
 	flag.Parse()
+	if *dumpAnchors {
+		prog, err := an.Load(*repo)
+		if err != nil {
+			fmt.Println(err)
+			os.Exit(2)
+		}
+		prog.DisableInline = true
+		an.FrozenAnchors = map[string]an.FrozenAnchor{}
+		for id, p := range props.All {
+			func() {
+				defer func() { _ = recover() }()
+				p.Run(&an.Ctx{P: prog, Prop: id, Tier: "quick", Start: time.Now(), VerifDir: *verif, Extra: map[string]any{}})
+			}()
+		}
+		out := map[string]an.FrozenAnchor{}
+		for spec, fn := range prog.ResolvedSpecs {
+			if fn.Exported() || fn.Pkg() == nil || !strings.HasPrefix(fn.Pkg().Path(), an.Mod) {
+				continue
+			}
+			src := prog.Src(fn)
+			if src == nil || src.Decl.Body == nil {
+				continue
+			}
+			fa := an.FrozenAnchor{Callees: map[string][]string{}}
+			sig := fn.Type().(*types.Signature)
+			fa.NParams = sig.Params().Len()
+			if sig.Recv() != nil {
+				fa.NParams++
+			}
+			seenCaller := map[string]bool{}
+			for _, cs := range prog.CallsTo(fn) {
+				if cs.Caller == nil || cs.Caller.Obj == fn {
+					continue
+				}
+				cn := an.FuncName(cs.Caller.Obj)
+				if seenCaller[cn] {
+					continue
+				}
+				seenCaller[cn] = true
+				fa.Callers = append(fa.Callers, cn)
+				names := map[string]bool{}
+				ast.Inspect(cs.Caller.Decl.Body, func(m ast.Node) bool {
+					ce, ok := m.(*ast.CallExpr)
+					if !ok {
+						return true
+					}
+					if g := an.Callee(cs.Caller.Pkg.TypesInfo, ce); g != nil && !g.Exported() && g.Pkg() == cs.Caller.Pkg.Types {
+						names[g.Name()] = true
+					}
+					return true
+				})
+				for nm := range names {
+					fa.Callees[cn] = append(fa.Callees[cn], nm)
+				}
+				sort.Strings(fa.Callees[cn])
+			}
+			sort.Strings(fa.Callers)
+			if len(fa.Callers) > 0 {
+				out[spec] = fa
+			}
+		}
+		b, _ := json.MarshalIndent(out, "", " ")
+		fmt.Println(string(b))
+		return
+	}
 	if *siblings != "" {
 		prog, err := an.Load(*repo)
 		if err != nil {
